@@ -60,6 +60,11 @@ def corpus_cases(which):
     out.append(fs1([("iface", "IBase", None, [E("Busy"), E("Closed"), M("open")]), ("iface", "IDoor", "IBase", [E("BUSY"), M("close"), E("CLOSED"), E("closed")]),
                     ("iface", "IGate", "IDoor", [E("bUSY"), E("Late")])]))
     out.append(fs1([("iface", "ICase", None, [M("get"), M("Get"), M("GET"), E("Ab"), E("aB"), E("AB"), E("ab")])]))
+    # methods called like the operations every object has (retain, release) and like other generated
+    # names, followed by further methods and by derived interfaces: each is a method with its own number
+    out.append(fs1([("iface", "ISession", None, [M("open"), M("release"), M("read"), M("retain"), M("close")]),
+                    ("iface", "ISecure", "ISession", [M("attest"), M("invoke"), M("rekey")]),
+                    ("iface", "ITop", "ISecure", [M("last")])]))
     # a name of a non-immediate ancestor declared again (method, error, constant), distance 2..4
     for dist in (2, 3, 4):
         for kind in ("method", "error", "const"):
@@ -295,6 +300,7 @@ def run(ctx):
     with ThreadPoolExecutor(max_workers=vlib.NCPU) as ex:
         emitted = dict(ex.map(emit, range(len(cases))))
     defs, labels = [], {}
+    scrape_cache = {}
     exit_mismatch = []
     big_checked = 0
     for k, fs in enumerate(cases):
@@ -326,6 +332,7 @@ def run(ctx):
         root = os.path.join(work, "cases", str(k))
         # (hierarchies with thousands of methods: outcome and MIR numbering only)
         tabs = scrape_tables(root, fs, emitted[k], which) if accepted and not fs.get("big") else []
+        scrape_cache[k] = tabs
         labels[k] = [t[0] for t in tabs]
         # the driver's exit status must match the library-level outcome
         for (lang, role), (rc2, _, diag) in emitted[k][fs["main"]].items():
@@ -358,6 +365,19 @@ def run(ctx):
         if fl[0] == 0:
             res["corr_broken"].append({"kind": "correspondence", "detail": "front model vs implementation disagree on case %d" % k,
                                        "case": payload})
+        # the tables list exactly the members the source declares, in declaration order, root first
+        if hres[str(k)].get("result") == "ok" and not fs.get("big"):
+            allif_ = {d_[1]: d_ for f_ in fs["files"] for d_ in f_["decls"] if d_[0] == "iface"}
+            kind_ = "method" if which == "ops" else "error"
+            for lab_, rows_ in (scrape_cache.get(k) or []):
+                if lab_ not in ("c-stub", "c-errors"):
+                    continue
+                for i_, r_ in rows_:
+                    want_ = [m_[1] for c_ in reversed(chain_names(fs, i_)) for m_ in allif_[c_][3] if m_[0] == kind_]
+                    got_ = [n_ for n_, v_ in sorted(r_, key=lambda x_: (x_[1] is None, x_[1]))]
+                    if want_ != got_:
+                        res["failures"].append(dict(payload, interface=i_, declared=want_, numbered=got_,
+                                                    what="the %ss numbered for interface %s are not the %ss the source declares, in declaration order" % (kind_, i_, kind_)))
         if len(fl) > 2 and fl[2] == 0:
             res["failures"].append(dict(payload, what="numbering observed in the MIR violates the specification"))
         if len(fl) > 4 and fl[4] == 0:
